@@ -13,16 +13,24 @@ WEIGHTS = [(None, 1000), ("0", 0), ("0.", 0), ("0.0", 0), ("0.000", 0), ("0.001"
 MORE_WEIGHTS = [("0.05", 50), ("0.25", 250), ("0.9", 900), ("0.01", 10), ("0.100", 100), ("1.0", 1000), ("1.00", 1000)]
 
 
+# three quarters of the renderings in the usual lower case
+STYLES = list(range(4)) * 3 + list(range(4, 16))
+
+
 def render_ae(elems, style):
-    """elems: [(coding, token)]; style 0..3: whitespace after ',', around ';', both, none"""
+    """elems: [(coding, token)]; style % 4: whitespace after ',', around ';', both, none;
+    style & 4: coding names in upper / mixed case (content-codings are case-insensitive, RFC 7231 3.1.2.1);
+    style & 8: the weight parameter written `Q=` (ABNF literals are case-insensitive, RFC 5234 2.3)"""
     parts = []
-    for c, tok in elems:
+    for i, (c, tok) in enumerate(elems):
+        if style & 4:
+            c = c.upper() if (i + style) % 2 == 0 else c.capitalize()
         if tok is None:
             parts.append(c)
         else:
-            semi = " ; " if style in (2, 3) else ";"
-            parts.append("%s%sq=%s" % (c, semi, tok))
-    sep = ", " if style in (1, 3) else ","
+            semi = " ; " if style % 4 in (2, 3) else ";"
+            parts.append("%s%s%s=%s" % (c, semi, "Q" if style & 8 else "q", tok))
+    sep = ", " if style % 4 in (1, 3) else ","
     return sep.join(parts)
 
 
@@ -47,12 +55,12 @@ def neg_cases(tier, seed):
 
     cases.append({"id": 1, "hdr": None, "abs": dict(ABSENT)})
     cases.append({"id": 2, "hdr": "", "abs": ae_abs([])})
-    for e in elems:                       # every 1-element list, 4 renderings
-        for st in range(4):
+    for e in elems:                       # every 1-element list, 16 renderings
+        for st in range(16):
             add([e], st)
     for a in elems:                       # every 2-element list
         for b in elems:
-            add([a, b], rng.randrange(4))
+            add([a, b], rng.choice(STYLES))
     rel = [(c, w) for c in ("gzip", "identity", "*") for w in WEIGHTS]
     n3 = 292000 if tier == "thorough" else 20000
     n4 = 200000 if tier == "thorough" else 10000
@@ -60,18 +68,18 @@ def neg_cases(tier, seed):
         for a in elems:
             for b in elems:
                 for c in elems:
-                    add([a, b, c], rng.randrange(4))
+                    add([a, b, c], rng.choice(STYLES))
     else:
         for _ in range(n3):
-            add([rng.choice(elems) for _ in range(3)], rng.randrange(4))
+            add([rng.choice(elems) for _ in range(3)], rng.choice(STYLES))
     for _ in range(n4):                   # 4-element lists over the relevant codings plus one filler
         es = [rng.choice(rel) for _ in range(3)] + [rng.choice(elems)]
         rng.shuffle(es)
-        add(es, rng.randrange(4))
+        add(es, rng.choice(STYLES))
     allw = WEIGHTS + MORE_WEIGHTS
     for _ in range(5000 if tier == "quick" else 50000):   # other 1-3 digit weights
         es = [(rng.choice(CODINGS[:3]), rng.choice(allw)) for _ in range(rng.randrange(1, 4))]
-        add(es, rng.randrange(4))
+        add(es, rng.choice(STYLES))
     # arbitrary bytes: no claim beyond "no panic"
     alphabet = list(range(0x20, 0x7f)) + [0x09] + list(range(0x80, 0x100))
     ng = 100000 if tier == "thorough" else 15000
@@ -143,6 +151,9 @@ AE_CHOICES = [
     ("br, deflate", ae_abs([("br", 1000), ("deflate", 1000)])),
     ("*;q=0, gzip", ae_abs([("*", 0), ("gzip", 1000)])),
     ("", ae_abs([])),
+    ("GZIP;q=0, *", ae_abs([("gzip", 0), ("*", 1000)])),
+    ("Gzip", ae_abs([("gzip", 1000)])),
+    ("gzip;Q=0.5, Identity", ae_abs([("gzip", 500), ("identity", 1000)])),
 ]
 
 
